@@ -170,7 +170,7 @@ ADDED = {
            "direction used with the length tolerance of MPR is unit).",
     "C03": "R-SHORTCUTS (the six signed-axis extremes are the shortcut vertices of the hill climb); R-BASISGUARD (plane_basis_from_normal branches on magnitudes before dividing by the length of the winning pair); R-ADJACENCY (each vertex of a mesh "
            "triangle gets the other two as neighbours); R-HALFSIZE; R-PUREARGS (public functions never modify an array argument in place).",
-    "C04": "R-LINKS / R-REFIT on the AABB tree that backs RigidBody.aabb(); R-HALFSIZE; R-PUREARGS.",
+    "C04": "R-LINKS / R-REFIT on the AABB tree that backs RigidBody.aabb(); R-HALFSIZE; R-PUREARGS. R-ROUNDTRIP: a square root whose radicand vanishes for axis-aligned poses is not fed by a term recovered through cancellation ((p + h*axis) - p) — the tightness clause for poses far from the origin.",
     "C05": "R-TRAVERSE additionally: no exit before the traversal (no pre-filter on the query box). R-CLOSED is decided by abstract evaluation of aabb_overlap's body on all 729 order types of the six bound pairs (loops, early exits and negations included).",
     "C06": "R-CLOSED by abstract evaluation (see C05).",
     "C07": "R-TOLUNIT (self.epsilon is compared with quantities of one length degree only). R-LOUDCAP: running out of polytope faces is asserted, never a silent break.",
